@@ -78,6 +78,10 @@ CLAIMS = {
          "TLA+ spec BlockCache: the Block wrapper as a cache state machine over object identities (slots, cached hash and bytes) with fresh values as facts; MC_BlockCache explores all call sequences of depth 5 on blocks of 0..3 transactions (identities distinct and stable) and generates every call sequence of bounded depth, which is replayed on real blocks from every constructor (message, bytes, bytes with trailing data, reader, message+bytes) plus random interleavings on large blocks; TLC trace validation checks values, identities, indices, out-of-range errors and transaction locations",
          "model checking of the abstract cache (10^6 states) plus TLC trace validation of enumerated and random accessor histories",
          "fresh facts from wire; pointer identity"),
+ "C17": ("DESIGN.md §4 C17",
+         "TLA+ spec Amount on exact limb arithmetic: RN53 (the one permitted float rounding), round-half-away, correctly rounded quotient with sticky bit, decimal text parsed and cross-multiplied; MC_Amount cross-checks the definitions on a toy range; NewAmount / ToUnit / ToBCH round trip / Format / String / MulF64 of the real code on every small satoshi count and its half-way neighbours, power-of-two/ten neighbourhoods, the cap, double-rounding corners, subnormals, NaN/Inf and random values are judged by TLC trace validation",
+         "TLC trace validation against exact-arithmetic definitions plus a small-scope model check of those definitions",
+         "IEEE-754 decomposition logged by the harness; exploration structured + random, not exhaustive"),
 }
 
 NOT_YET = "check not built yet in this round; see DESIGN.md for the planned TLA+ model"
